@@ -11,14 +11,15 @@ fn stub_format(_a: std::fmt::Arguments<'_>) -> String {
 }
 
 fn write_leaf_model(start: usize, len: usize, force_null_heavy: bool) {
-    // validity of an 80-row leaf: arbitrary bits
-    let raw: [u8; 10] = kani::any();
+    // validity of an 80-row leaf.  Concrete shape, symbolic data: three bytes (rows 0..=15 and 64..=71) are
+    // arbitrary, the other 56 rows are all null (null-heavy instances) or all valid (per-row instances).  The number
+    // of values pushed is then at most 24 and the buffers never grow by a symbolic amount.
+    let fill: u8 = if force_null_heavy { 0x00 } else { 0xFF };
+    let mut raw = [fill; 10];
+    raw[0] = kani::any();
+    raw[1] = kani::any();
+    raw[8] = kani::any();
     let nulls = NullBuffer::new(BooleanBuffer::new(Buffer::from_vec(raw.to_vec()), 0, 80));
-    if force_null_heavy {
-        kani::assume(nulls.null_count() * 2 >= 80);
-    } else {
-        kani::assume(nulls.null_count() * 2 < 80 && nulls.null_count() > 0);
-    }
     let mut info = ArrayLevels {
         def_levels: LevelData::Materialized(vec![7i16; 3]),
         rep_levels: LevelData::Absent,
@@ -54,15 +55,15 @@ fn write_leaf_model(start: usize, len: usize, force_null_heavy: bool) {
     if r >= start && r < start + len && valid(r) {
         assert!(n >= 1, "a non-null row yields at least one index");
     }
-    kani::cover!(n > 10, "several values");
+    kani::cover!(n > 5, "several values");
     kani::cover!(n >= 1 && info.non_null_indices[0] == start, "first row of the range is a value");
     std::mem::forget(info);
 }
 
-//@ tier: thorough
-//@ timeout: 3600
+//@ tier: quick
+//@ timeout: 900
 //@ functions: parquet::arrow::arrow_writer::levels::LevelInfoBuilder::write_leaf (bulk-fill path for null-heavy ranges >= 64 rows), LevelData::materialize_mut
-//@ bound: nullable leaf of 80 rows with arbitrary validity that is at least half null, written for the 64-row range starting at row 5 (a leaf below a null parent / non-zero list offset): per-index definition levels and value indices (absolute positions of the non-null rows of the range); concrete range because the level buffers grow with it; unwind 70 (one loop iteration per non-null row); best effort: not expected to finish under the 12 GB cap
+//@ bound: nullable leaf of 80 rows whose rows 0..=15 and 64..=71 have arbitrary validity and whose other rows are null (so at least half null), written for the 64-row range starting at row 5 (a leaf below a null parent / non-zero list offset): per-index definition levels and value indices (absolute positions of the non-null rows of the range); unwind 70 (Vec::resize of the 64 new levels)
 //@ stub: alloc::fmt::format -> empty String
 #[kani::proof]
 #[kani::unwind(70)]
@@ -71,10 +72,10 @@ fn c05_write_leaf_bulk_fill_subrange() {
     write_leaf_model(5, 64, true);
 }
 
-//@ tier: thorough
-//@ timeout: 3600
+//@ tier: quick
+//@ timeout: 900
 //@ functions: parquet::arrow::arrow_writer::levels::LevelInfoBuilder::write_leaf (per-row path)
-//@ bound: nullable leaf of 80 rows, fewer than half null, written for the 9-row range starting at row 5: per-index definition levels and value indices; unwind 12
+//@ bound: nullable leaf of 80 rows whose rows 0..=15 and 64..=71 have arbitrary validity and whose other rows are valid (fewer than half null), written for the 9-row range starting at row 5: per-index definition levels and value indices; unwind 12
 //@ stub: alloc::fmt::format -> empty String
 #[kani::proof]
 #[kani::unwind(12)]
